@@ -13,37 +13,42 @@ def evWrites : Ev → Bytes
   | .write d _ => d
   | _ => []
 
-/-- the invariant tying the abstract automaton state to the concrete file system -/
-def Inv (fs0 : FS) (s : St) (fs : FS) (W : Bytes) : Prop :=
+/-- the invariant tying the abstract automaton state to the concrete file system; `P` is what is known
+    about the destination's directory entry before publication, `ino0` the inode table at the start -/
+def GInv (P : Option Nat → Prop) (ino0 : List Inode) (s : St) (fs : FS) (W : Bytes) : Prop :=
   match s.phase with
   | .init =>
-    fs.inodes = fs0.inodes ∧ fs.dir.dest = fs0.dir.dest ∧ (∀ d ∈ fs.hist, d.dest = fs0.dir.dest) ∧
+    fs.inodes = ino0 ∧ P fs.dir.dest ∧ (∀ d ∈ fs.hist, P d.dest) ∧
     W = [] ∧ s.isOpen = false
   | .part =>
-    fs.dir.dest = fs0.dir.dest ∧ (∀ d ∈ fs.hist, d.dest = fs0.dir.dest) ∧
-    fs.dir.part = some fs0.inodes.length ∧
-    ∃ x, fs.inodes = fs0.inodes ++ [x] ∧ (s.unsynced = false → x.tail = []) ∧
-      (if s.isOpen then ∃ buf, fs.openf = some ⟨fs0.inodes.length, buf⟩ ∧ x.durable ++ (x.tail ++ buf) = W ∧
+    P fs.dir.dest ∧ (∀ d ∈ fs.hist, P d.dest) ∧
+    fs.dir.part = some ino0.length ∧
+    ∃ x, fs.inodes = ino0 ++ [x] ∧ (s.unsynced = false → x.tail = []) ∧
+      (if s.isOpen then ∃ buf, fs.openf = some ⟨ino0.length, buf⟩ ∧ x.durable ++ (x.tail ++ buf) = W ∧
           (s.dirtyBuf = false → buf = [])
        else x.durable ++ x.tail = W ∧ s.dirtyBuf = false)
   | .aborted =>
-    fs.dir.dest = fs0.dir.dest ∧ (∀ d ∈ fs.hist, d.dest = fs0.dir.dest) ∧
-    ∃ x, fs.inodes = fs0.inodes ++ [x] ∧
-      (s.isOpen = true → ∃ buf, fs.openf = some ⟨fs0.inodes.length, buf⟩)
+    P fs.dir.dest ∧ (∀ d ∈ fs.hist, P d.dest) ∧ fs.dir.part = none ∧
+    ∃ x, fs.inodes = ino0 ++ [x] ∧
+      (s.isOpen = true → ∃ buf, fs.openf = some ⟨ino0.length, buf⟩)
   | .linked =>
-    fs.dir.dest = some fs0.inodes.length ∧ fs.dir.part = some fs0.inodes.length ∧
-    (∀ d ∈ fs.hist, d.dest = fs0.dir.dest ∨ d.dest = some fs0.inodes.length) ∧
-    ∃ x, fs.inodes = fs0.inodes ++ [x] ∧ x.durable = W ∧ x.tail = [] ∧
-      (s.isOpen = true → fs.openf = some ⟨fs0.inodes.length, []⟩) ∧ s.dirtyBuf = false ∧ s.unsynced = false
+    fs.dir.dest = some ino0.length ∧ fs.dir.part = some ino0.length ∧
+    (∀ d ∈ fs.hist, P d.dest ∨ d.dest = some ino0.length) ∧
+    ∃ x, fs.inodes = ino0 ++ [x] ∧ x.durable = W ∧ x.tail = [] ∧
+      (s.isOpen = true → fs.openf = some ⟨ino0.length, []⟩) ∧ s.dirtyBuf = false ∧ s.unsynced = false
   | .done =>
-    fs.dir.dest = some fs0.inodes.length ∧ fs.dir.part = none ∧
-    (∀ d ∈ fs.hist, d.dest = fs0.dir.dest ∨ d.dest = some fs0.inodes.length) ∧
-    ∃ x, fs.inodes = fs0.inodes ++ [x] ∧ x.durable = W ∧ x.tail = [] ∧
-      (s.isOpen = true → fs.openf = some ⟨fs0.inodes.length, []⟩) ∧ s.dirtyBuf = false ∧ s.unsynced = false
+    fs.dir.dest = some ino0.length ∧ fs.dir.part = none ∧
+    (∀ d ∈ fs.hist, P d.dest ∨ d.dest = some ino0.length) ∧
+    ∃ x, fs.inodes = ino0 ++ [x] ∧ x.durable = W ∧ x.tail = [] ∧
+      (s.isOpen = true → fs.openf = some ⟨ino0.length, []⟩) ∧ s.dirtyBuf = false ∧ s.unsynced = false
 
-theorem inv_step (fs0 : FS) (s s' : St) (fs fs' : FS) (W : Bytes) (e : Ev)
-    (hi : Inv fs0 s fs W) (hs : s.step e = some s') (hf : fs.step e = .ok fs') :
-    Inv fs0 s' fs' (W ++ evWrites e) := by
+/-- C04's instance: before publication the destination's entry is the one from the start -/
+abbrev Inv (fs0 : FS) (s : St) (fs : FS) (W : Bytes) : Prop :=
+  GInv (fun d => d = fs0.dir.dest) fs0.inodes s fs W
+
+theorem ginv_step (P : Option Nat → Prop) (ino0 : List Inode) (s s' : St) (fs fs' : FS) (W : Bytes) (e : Ev)
+    (hi : GInv P ino0 s fs W) (hs : s.step e = some s') (hf : fs.step e = .ok fs') :
+    GInv P ino0 s' fs' (W ++ evWrites e) := by
   obtain ⟨ph, op, db, us⟩ := s
   cases e with
   | noop =>
@@ -51,18 +56,18 @@ theorem inv_step (fs0 : FS) (s s' : St) (fs fs' : FS) (W : Bytes) (e : Ev)
   | openPart excl sd mode =>
     cases ph <;> simp [St.step] at hs
     obtain ⟨⟨rfl, rfl⟩, rfl⟩ := hs
-    simp only [Inv] at hi
+    simp only [GInv] at hi
     obtain ⟨h1, h2, h3, rfl, rfl⟩ := hi
     simp only [FS.step, FS.openPart] at hf
     split at hf
     · simp at hf
     · simp at hf; subst hf
-      simp [Inv, FS.setDir, evWrites, h1, h2]
+      simp [GInv, FS.setDir, evWrites, h1, h2]
       exact h3
   | chmodPart m =>
     cases ph <;> simp [St.step] at hs
     subst hs
-    simp only [Inv] at hi ⊢
+    simp only [GInv] at hi ⊢
     obtain ⟨h1, h2, h3, x, h4, h5, h6⟩ := hi
     simp only [FS.step, FS.chmodPart, h3] at hf
     simp at hf; subst hf
@@ -72,7 +77,7 @@ theorem inv_step (fs0 : FS) (s s' : St) (fs fs' : FS) (W : Bytes) (e : Ev)
     cases ph <;> simp [St.step] at hs
     · -- part
       obtain ⟨rfl, rfl⟩ := hs
-      simp only [Inv] at hi ⊢
+      simp only [GInv] at hi ⊢
       obtain ⟨h1, h2, h3, x, h4, h5, h6⟩ := hi
       simp only [if_true] at h6
       obtain ⟨buf, h7, h8, h9⟩ := h6
@@ -85,17 +90,17 @@ theorem inv_step (fs0 : FS) (s s' : St) (fs fs' : FS) (W : Bytes) (e : Ev)
       simp only [List.append_assoc] at this ⊢
     · -- aborted
       obtain ⟨rfl, rfl⟩ := hs
-      simp only [Inv] at hi ⊢
-      obtain ⟨h1, h2, x, h4, h6⟩ := hi
+      simp only [GInv] at hi ⊢
+      obtain ⟨h1, h2, hp0, x, h4, h6⟩ := hi
       obtain ⟨buf, h7⟩ := h6 trivial
       simp only [FS.step, FS.write, h7] at hf
       simp at hf; subst hf
-      simp [h1, h4, modInode_append_last, evWrites]
+      simp [h1, h4, hp0, modInode_append_last, evWrites]
       exact h2
   | flush =>
     simp [St.step] at hs
     obtain ⟨rfl, rfl⟩ := hs
-    cases ph <;> simp only [Inv] at hi ⊢
+    cases ph <;> simp only [GInv] at hi ⊢
     · simp at hi
     · obtain ⟨h1, h2, h3, x, h4, h5, h6⟩ := hi
       simp only [if_true] at h6
@@ -116,16 +121,16 @@ theorem inv_step (fs0 : FS) (s s' : St) (fs fs' : FS) (W : Bytes) (e : Ev)
       simp at hf; subst hf
       simp [h1, h2, h4, modInode_append_last, evWrites, h5, h6]
       exact h3
-    · obtain ⟨h1, h2, x, h4, h6⟩ := hi
+    · obtain ⟨h1, h2, hp0, x, h4, h6⟩ := hi
       obtain ⟨buf, h7⟩ := h6 trivial
       simp only [FS.step, FS.flush, h7] at hf
       simp at hf; subst hf
-      simp [h1, h4, modInode_append_last, evWrites]
+      simp [h1, h4, hp0, modInode_append_last, evWrites]
       exact h2
   | fsync =>
     simp [St.step] at hs
     obtain ⟨rfl, rfl⟩ := hs
-    cases ph <;> simp only [Inv] at hi ⊢
+    cases ph <;> simp only [GInv] at hi ⊢
     · simp at hi
     · obtain ⟨h1, h2, h3, x, h4, h5, h6⟩ := hi
       simp only [if_true] at h6
@@ -144,16 +149,16 @@ theorem inv_step (fs0 : FS) (s s' : St) (fs fs' : FS) (W : Bytes) (e : Ev)
       simp at hf; subst hf
       simp [h1, h2, h4, modInode_append_last, evWrites, h5, h6, h7]
       exact h3
-    · obtain ⟨h1, h2, x, h4, h6⟩ := hi
+    · obtain ⟨h1, h2, hp0, x, h4, h6⟩ := hi
       obtain ⟨buf, h7⟩ := h6 trivial
       simp only [FS.step, FS.fsync, h7] at hf
       simp at hf; subst hf
-      simp [h1, h4, modInode_append_last, evWrites, h7]
+      simp [h1, h4, hp0, modInode_append_last, evWrites, h7]
       exact h2
   | close =>
     simp [St.step] at hs
     obtain ⟨rfl, rfl⟩ := hs
-    cases ph <;> simp only [Inv] at hi ⊢
+    cases ph <;> simp only [GInv] at hi ⊢
     · simp at hi
     · obtain ⟨h1, h2, h3, x, h4, h5, h6⟩ := hi
       simp only [if_true] at h6
@@ -174,16 +179,16 @@ theorem inv_step (fs0 : FS) (s s' : St) (fs fs' : FS) (W : Bytes) (e : Ev)
       simp at hf; subst hf
       simp [h1, h2, h4, modInode_append_last, evWrites, h5, h6]
       exact h3
-    · obtain ⟨h1, h2, x, h4, h6⟩ := hi
+    · obtain ⟨h1, h2, hp0, x, h4, h6⟩ := hi
       obtain ⟨buf, h7⟩ := h6 trivial
       simp only [FS.step, FS.close, h7] at hf
       simp at hf; subst hf
-      simp [h1, h4, modInode_append_last, evWrites]
+      simp [h1, h4, hp0, modInode_append_last, evWrites]
       exact h2
   | closeFd =>
     simp [St.step] at hs
     obtain ⟨⟨rfl, hd⟩, rfl⟩ := hs
-    cases ph <;> simp only [Inv] at hi ⊢
+    cases ph <;> simp only [GInv] at hi ⊢
     · simp at hi
     · obtain ⟨h1, h2, h3, x, h4, h5, h6⟩ := hi
       simp only [if_true] at h6
@@ -205,16 +210,16 @@ theorem inv_step (fs0 : FS) (s s' : St) (fs fs' : FS) (W : Bytes) (e : Ev)
       simp at hf; subst hf
       simp [h1, h2, h4, evWrites, h5, h6]
       exact h3
-    · obtain ⟨h1, h2, x, h4, h6⟩ := hi
+    · obtain ⟨h1, h2, hp0, x, h4, h6⟩ := hi
       obtain ⟨buf, h7⟩ := h6 trivial
       simp only [FS.step, FS.closeFd, h7] at hf
       simp at hf; subst hf
-      simp [h1, h4, evWrites]
+      simp [h1, h4, hp0, evWrites]
       exact h2
   | renamePartDest =>
     simp [St.step] at hs
     obtain ⟨⟨rfl, rfl, rfl⟩, rfl⟩ := hs
-    simp only [Inv] at hi ⊢
+    simp only [GInv] at hi ⊢
     obtain ⟨h1, h2, h3, x, h4, h5, h6⟩ := hi
     simp only [FS.step, FS.renamePartDest, h3] at hf
     simp at hf; subst hf
@@ -230,7 +235,7 @@ theorem inv_step (fs0 : FS) (s s' : St) (fs fs' : FS) (W : Bytes) (e : Ev)
   | linkPartDest =>
     simp [St.step] at hs
     obtain ⟨⟨rfl, rfl, rfl⟩, rfl⟩ := hs
-    simp only [Inv] at hi ⊢
+    simp only [GInv] at hi ⊢
     obtain ⟨h1, h2, h3, x, h4, h5, h6⟩ := hi
     simp only [FS.step, FS.linkPartDest, h3] at hf
     split at hf
@@ -246,7 +251,7 @@ theorem inv_step (fs0 : FS) (s s' : St) (fs fs' : FS) (W : Bytes) (e : Ev)
         exact ⟨h8, fun _ => h7⟩
       · simp [ht] at h6; simp [h6, *]
   | unlinkPart =>
-    cases ph <;> simp [St.step] at hs <;> subst hs <;> simp only [Inv] at hi ⊢
+    cases ph <;> simp [St.step] at hs <;> subst hs <;> simp only [GInv] at hi ⊢
     · obtain ⟨h1, h2, h3, rfl, rfl⟩ := hi
       simp only [FS.step, FS.unlinkPart] at hf
       split at hf
@@ -272,6 +277,10 @@ theorem inv_step (fs0 : FS) (s s' : St) (fs fs' : FS) (W : Bytes) (e : Ev)
   | writeDest d => simp [St.step] at hs
   | unlinkDest => simp [St.step] at hs
   | unknown => simp [St.step] at hs
+
+theorem inv_step (fs0 : FS) (s s' : St) (fs fs' : FS) (W : Bytes) (e : Ev)
+    (hi : Inv fs0 s fs W) (hs : s.step e = some s') (hf : fs.step e = .ok fs') :
+    Inv fs0 s' fs' (W ++ evWrites e) := ginv_step _ _ s s' fs fs' W e hi hs hf
 
 theorem allWrites_cons (e : Ev) (t : List Ev) : allWrites (e :: t) = evWrites e ++ allWrites t := by
   cases e <;> simp [allWrites, evWrites]
@@ -299,7 +308,7 @@ theorem inv_run (fs0 : FS) : ∀ (t : List Ev) (s s' : St) (fs fs' : FS) (W : By
         simpa [allWrites_cons] using this
 
 theorem inv_init (fs0 : FS) (hh : fs0.hist = []) : Inv fs0 St.init fs0 [] := by
-  simp [Inv, St.init, hh]
+  simp [GInv, St.init, hh]
 
 theorem run_append (s : St) (p q : List Ev) :
     s.run (p ++ q) = (s.run p).bind (fun s' => s'.run q) := by
@@ -400,12 +409,12 @@ theorem inv_unpublished (fs0 fs : FS) (s : St) (W : Bytes) (hwf : fs0.WF) (hsy :
         cases hd0 : fs0.dir.dest with
         | none => simp [hd0] at hx
         | some i => simp only [hd0] at hx; exact hsy i x hd0 hx
-  cases ph <;> simp [St.published] at hp <;> simp only [Inv] at hi
+  cases ph <;> simp [St.published] at hp <;> simp only [GInv] at hi
   · obtain ⟨h1, h2, h3, _, _⟩ := hi
     exact key none (by simp [FS.inode?, h1]) h2 h3
   · obtain ⟨h1, h2, _, x, h4, _⟩ := hi
     exact key none (inode?_old fs0 fs x hwf h4) h1 h2
-  · obtain ⟨h1, h2, x, h4, _⟩ := hi
+  · obtain ⟨h1, h2, _, x, h4, _⟩ := hi
     exact key none (inode?_old fs0 fs x hwf h4) h1 h2
 
 /-- after publication: a process death leaves the complete new content; a power loss leaves the
@@ -444,10 +453,244 @@ theorem inv_published (fs0 fs : FS) (s : St) (W : Bytes) (hwf : fs0.WF) (hsy : D
       · right
         rw [hdd, hnew]
         simp [Inode.afterPower, h5, h6]
-  cases ph <;> simp [St.published] at hp <;> simp only [Inv] at hi
+  cases ph <;> simp [St.published] at hp <;> simp only [GInv] at hi
   · obtain ⟨h1, _, h3, x, h4, h5, h6, _⟩ := hi
     exact key x h4 h5 h6 h1 h3
   · obtain ⟨h1, _, h3, x, h4, h5, h6, _⟩ := hi
     exact key x h4 h5 h6 h1 h3
+
+end C04
+
+/-! ### the transliterated saver -/
+namespace C04
+
+theorem run_writes (ws : List (Bytes × Nat)) (db us : Bool) :
+    ∃ db' us', (St.mk .part true db us).run (ws.map fun w => Ev.write w.1 w.2) = some ⟨.part, true, db', us'⟩ := by
+  induction ws generalizing db us with
+  | nil => exact ⟨db, us, by simp [St.run]⟩
+  | cons w ws ih =>
+    obtain ⟨db', us', h⟩ := ih true true
+    exact ⟨db', us', by simpa [St.run, St.step] using h⟩
+
+def saverFinal (cfg : Cfg) (body : Body) : St :=
+  ⟨if body.raises then (if cfg.rmPartOnExc then .aborted else .part) else .done, false, false, false⟩
+
+/-- the part of the saver's trace after the creation of the part file -/
+def saverRest (cfg : Cfg) (fs : FS) (body : Body) : List Ev :=
+  Ev.noop ::
+  ((if (choosePerms cfg fs).2 then [Ev.chmodPart (choosePerms cfg fs).1] else []) ++
+  (body.writes.map (fun w => Ev.write w.1 w.2) ++
+  ([Ev.flush, Ev.fsync, Ev.close] ++
+  (if body.raises then (if cfg.rmPartOnExc then [Ev.unlinkPart] else [])
+   else if cfg.overwrite then [Ev.renamePartDest] else [Ev.linkPartDest, Ev.unlinkPart]))))
+
+def saverPre (cfg : Cfg) (fs : FS) : List Ev :=
+  if cfg.overwritePart && fs.dir.part.isSome then [Ev.unlinkPart] else []
+
+theorem saverTrace_split (cfg : Cfg) (fs : FS) (body : Body) :
+    saverTrace cfg fs body = saverPre cfg fs ++ ([Ev.openPart true true (choosePerms cfg fs).1] ++ saverRest cfg fs body) := by
+  simp [saverTrace, saverPre, saverRest, List.append_assoc]
+
+theorem saverRest_run (cfg : Cfg) (fs : FS) (body : Body) :
+    (St.mk .part true false false).run (saverRest cfg fs body) = some (saverFinal cfg body) := by
+  unfold saverRest
+  simp only [St.run, St.step]
+  have chm : ∀ t, (St.mk .part true false false).run ((if (choosePerms cfg fs).2 then [Ev.chmodPart (choosePerms cfg fs).1] else []) ++ t) = (St.mk .part true false false).run t := by
+    intro t; split <;> simp [St.run, St.step]
+  rw [chm, run_append]
+  obtain ⟨db, us, hw⟩ := run_writes body.writes false false
+  rw [hw]
+  simp only [Option.bind_some]
+  cases hr : body.raises <;> cases hm : cfg.rmPartOnExc <;> cases ho : cfg.overwrite <;>
+    simp [St.run, St.step, saverFinal, hr, hm, ho]
+
+theorem saver_run (cfg : Cfg) (fs : FS) (body : Body) :
+    St.init.run (saverTrace cfg fs body) = some (saverFinal cfg body) := by
+  rw [saverTrace_split, run_append]
+  have pre : St.init.run (saverPre cfg fs) = some St.init := by
+    unfold saverPre; split <;> simp [St.run, St.step, St.init]
+  rw [pre]
+  simp only [Option.bind_some, List.singleton_append]
+  simp only [St.run, St.step, St.init]
+  simpa using saverRest_run cfg fs body
+
+theorem saver_safe (cfg : Cfg) (fs : FS) (body : Body) : SafeTrace (saverTrace cfg fs body) = true := by
+  simp [SafeTrace, saver_run]
+
+end C04
+namespace C04
+
+/-- events whose success is guaranteed by the invariant alone -/
+def Ev.auto (dest0 : Option Nat) : Ev → Bool
+  | .openPart _ _ _ => false
+  | .linkPartDest => dest0.isNone
+  | _ => true
+
+theorem inv_openf (fs0 : FS) (s : St) (fs : FS) (W : Bytes) (hi : Inv fs0 s fs W)
+    (ho : s.isOpen = true) : ∃ f, fs.openf = some f := by
+  obtain ⟨ph, op, db, us⟩ := s
+  simp at ho; subst ho
+  cases ph <;> simp only [GInv] at hi
+  · simp at hi
+  · obtain ⟨_, _, _, x, _, _, h6⟩ := hi
+    simp only [if_true] at h6
+    obtain ⟨buf, h7, _⟩ := h6
+    exact ⟨_, h7⟩
+  · obtain ⟨_, _, _, x, _, _, _, h7, _⟩ := hi
+    exact ⟨_, h7 trivial⟩
+  · obtain ⟨_, _, _, x, _, _, _, h7, _⟩ := hi
+    exact ⟨_, h7 trivial⟩
+  · obtain ⟨_, _, _, x, _, h6⟩ := hi
+    obtain ⟨buf, h7⟩ := h6 trivial
+    exact ⟨_, h7⟩
+
+theorem progress (fs0 : FS) (s s' : St) (fs : FS) (W : Bytes) (e : Ev)
+    (hi : Inv fs0 s fs W) (hs : s.step e = some s') (hph : s.phase ≠ .init) (he : e.auto fs0.dir.dest = true) :
+    ∃ fs', fs.step e = .ok fs' := by
+  cases e with
+  | noop => exact ⟨fs, rfl⟩
+  | openPart a b c => simp [Ev.auto] at he
+  | chmodPart m =>
+    obtain ⟨ph, op, db, us⟩ := s
+    cases ph <;> simp [St.step] at hs
+    simp only [GInv] at hi
+    obtain ⟨_, _, h3, _⟩ := hi
+    simp [FS.step, FS.chmodPart, h3]
+  | write d k =>
+    have ho : s.isOpen = true := by simp [St.step] at hs; exact hs.1.1
+    obtain ⟨f, hf⟩ := inv_openf fs0 s fs W hi ho
+    simp [FS.step, FS.write, hf]
+  | flush =>
+    have ho : s.isOpen = true := by simp [St.step] at hs; exact hs.1
+    obtain ⟨f, hf⟩ := inv_openf fs0 s fs W hi ho
+    simp [FS.step, FS.flush, hf]
+  | fsync =>
+    have ho : s.isOpen = true := by simp [St.step] at hs; exact hs.1
+    obtain ⟨f, hf⟩ := inv_openf fs0 s fs W hi ho
+    simp [FS.step, FS.fsync, hf]
+  | close =>
+    have ho : s.isOpen = true := by simp [St.step] at hs; exact hs.1
+    obtain ⟨f, hf⟩ := inv_openf fs0 s fs W hi ho
+    simp [FS.step, FS.close, hf]
+  | closeFd =>
+    have ho : s.isOpen = true := by simp [St.step] at hs; exact hs.1.1
+    obtain ⟨f, hf⟩ := inv_openf fs0 s fs W hi ho
+    simp [FS.step, FS.closeFd, hf]
+  | renamePartDest =>
+    obtain ⟨ph, op, db, us⟩ := s
+    simp [St.step] at hs
+    obtain ⟨⟨rfl, _⟩, _⟩ := hs
+    simp only [GInv] at hi
+    obtain ⟨_, _, h3, _⟩ := hi
+    simp [FS.step, FS.renamePartDest, h3]
+  | linkPartDest =>
+    obtain ⟨ph, op, db, us⟩ := s
+    simp [St.step] at hs
+    obtain ⟨⟨rfl, _⟩, _⟩ := hs
+    simp only [GInv] at hi
+    obtain ⟨h1, _, h3, _⟩ := hi
+    simp [Ev.auto] at he
+    simp [FS.step, FS.linkPartDest, h3, h1, he]
+  | unlinkPart =>
+    obtain ⟨ph, op, db, us⟩ := s
+    cases ph <;> simp [St.step] at hs <;> simp at hph <;> simp only [GInv] at hi
+    · obtain ⟨_, _, h3, _⟩ := hi
+      simp [FS.step, FS.unlinkPart, h3]
+    · obtain ⟨_, h3, _⟩ := hi
+      simp [FS.step, FS.unlinkPart, h3]
+  | truncDest => simp [St.step] at hs
+  | writeDest d => simp [St.step] at hs
+  | unlinkDest => simp [St.step] at hs
+  | unknown => simp [St.step] at hs
+
+theorem step_not_init (s s' : St) (e : Ev) (hs : s.step e = some s') (h : s.phase ≠ .init) : s'.phase ≠ .init := by
+  obtain ⟨ph, op, db, us⟩ := s
+  cases e <;> cases ph <;> simp [St.step] at hs <;> simp at h
+  all_goals (try (obtain ⟨_, rfl⟩ := hs))
+  all_goals (try subst hs)
+  all_goals simp
+
+theorem run_exec (fs0 : FS) : ∀ (t : List Ev) (s s' : St) (fs : FS) (W : Bytes),
+    Inv fs0 s fs W → s.run t = some s' → s.phase ≠ .init → (∀ e ∈ t, e.auto fs0.dir.dest = true) →
+    ∃ fs', exec fs t = some fs' ∧ Inv fs0 s' fs' (W ++ allWrites t)
+  | [], s, s', fs, W, hi, hs, _, _ => by
+    simp [St.run] at hs; subst hs; exact ⟨fs, rfl, by simpa [allWrites] using hi⟩
+  | e :: t, s, s', fs, W, hi, hs, hph, hall => by
+    simp only [St.run] at hs
+    cases h1 : s.step e with
+    | none => simp [h1] at hs
+    | some s1 =>
+      simp only [h1] at hs
+      obtain ⟨fs1, h2⟩ := progress fs0 s s1 fs W e hi h1 hph (hall e (by simp))
+      have hi1 := inv_step fs0 s s1 fs fs1 W e hi h1 h2
+      obtain ⟨fs', h3, h4⟩ := run_exec fs0 t s1 s' fs1 _ hi1 hs (step_not_init s s1 e h1 hph)
+        (fun e' he' => hall e' (by simp [he']))
+      exact ⟨fs', by simp [exec, h2, h3], by simpa [allWrites_cons] using h4⟩
+
+end C04
+
+namespace C04
+
+theorem saverRest_auto (cfg : Cfg) (fs : FS) (body : Body)
+    (hd : cfg.overwrite = true ∨ fs.dir.dest = none ∨ body.raises = true) :
+    ∀ e ∈ saverRest cfg fs body, e.auto fs.dir.dest = true := by
+  intro e he
+  simp only [saverRest, List.mem_cons, List.mem_append, List.mem_map] at he
+  rcases he with he | he | he | he | he
+  · subst he; rfl
+  · split at he <;> simp at he; subst he; rfl
+  · obtain ⟨w, _, rfl⟩ := he; rfl
+  · simp at he; rcases he with rfl | rfl | rfl <;> rfl
+  · cases hr : body.raises <;> cases ho : cfg.overwrite <;> cases hm : cfg.rmPartOnExc <;>
+      simp [hr, ho, hm] at he hd <;> (try (rcases he with rfl | rfl)) <;> (try subst he) <;> simp [Ev.auto, hd]
+
+/-- the saver's trace can always be executed when nothing is in its way: the part file name is free
+    (or `overwrite_part` is set), and the destination may be replaced (or is absent, or the block raises) -/
+theorem saver_exec (cfg : Cfg) (fs : FS) (body : Body) (hh : fs.hist = [])
+    (hp : fs.dir.part = none ∨ cfg.overwritePart = true)
+    (hd : cfg.overwrite = true ∨ fs.dir.dest = none ∨ body.raises = true) :
+    ∃ fs', exec fs (saverTrace cfg fs body) = some fs' ∧
+      Inv fs (saverFinal cfg body) fs' (allWrites (saverTrace cfg fs body)) := by
+  -- the optional removal of a stale part file
+  obtain ⟨fs1, hx1, hi1, hp1⟩ : ∃ fs1, exec fs (saverPre cfg fs) = some fs1 ∧ Inv fs St.init fs1 [] ∧ fs1.dir.part = none := by
+    unfold saverPre
+    cases hpp : fs.dir.part with
+    | none => exact ⟨fs, by simp [exec], inv_init fs hh, hpp⟩
+    | some i =>
+      have ho : cfg.overwritePart = true := by
+        rcases hp with h | h
+        · simp [hpp] at h
+        · exact h
+      have hs : fs.step .unlinkPart = .ok (fs.setDir { fs.dir with part := none }) := by
+        simp [FS.step, FS.unlinkPart, hpp]
+      refine ⟨fs.setDir { fs.dir with part := none }, by simp [ho, exec, hs], ?_, by simp [FS.setDir]⟩
+      have := inv_step fs St.init St.init fs _ [] .unlinkPart (inv_init fs hh) (by simp [St.step, St.init]) hs
+      simpa [evWrites] using this
+  -- the exclusive creation
+  have hs2 : ∃ fs2, fs1.step (.openPart true true (choosePerms cfg fs).1) = .ok fs2 := by
+    simp [FS.step, FS.openPart, hp1]
+  obtain ⟨fs2, hs2⟩ := hs2
+  have hi2 := inv_step fs St.init ⟨.part, true, false, false⟩ fs1 fs2 [] _ hi1 (by simp [St.step, St.init]) hs2
+  simp only [evWrites, List.append_nil] at hi2
+  obtain ⟨fs', hx3, hi3⟩ := run_exec fs (saverRest cfg fs body) _ _ fs2 [] hi2 (saverRest_run cfg fs body)
+    (by simp) (saverRest_auto cfg fs body hd)
+  refine ⟨fs', ?_, ?_⟩
+  · rw [saverTrace_split, exec_append, hx1]
+    simp [exec, hs2, hx3]
+  · have : allWrites (saverTrace cfg fs body) = allWrites (saverRest cfg fs body) := by
+      rw [saverTrace_split, allWrites_append]
+      have : allWrites (saverPre cfg fs) = [] := by unfold saverPre; split <;> simp [allWrites]
+      simp [this, allWrites]
+    rw [this]; simpa using hi3
+
+theorem allWrites_saverTrace (cfg : Cfg) (fs : FS) (body : Body) :
+    allWrites (saverTrace cfg fs body) = (body.writes.map (·.1)).flatten := by
+  have hw : ∀ ws : List (Bytes × Nat), allWrites (ws.map fun w => Ev.write w.1 w.2) = (ws.map (·.1)).flatten := by
+    intro ws; induction ws with
+    | nil => simp [allWrites]
+    | cons w ws ih => simp [allWrites, ih]
+  simp only [saverTrace, allWrites_append, hw]
+  cases body.raises <;> cases cfg.rmPartOnExc <;> cases cfg.overwrite <;> cases (choosePerms cfg fs).2 <;>
+    cases (cfg.overwritePart && fs.dir.part.isSome) <;> simp [allWrites]
 
 end C04
